@@ -148,6 +148,35 @@ def f_iban_validate(a):
     return guard(lambda: eb(IBAN(dec(a[0]), allow_invalid=True).validate(b(a[1]))))
 
 
+def _lenient_first(text):
+    """the lenient uses of the same text that may precede a strict validation in one process: constructor, is_valid,
+    validate() without the national step - outcomes ignored"""
+    for f in (lambda: IBAN(text), lambda: IBAN(text, allow_invalid=True).is_valid, lambda: IBAN(text, allow_invalid=True).validate()):
+        try:
+            f()
+        except Exception:  # noqa: BLE001
+            pass
+
+
+def f_iban_new_after(a):
+    """IBAN(text, ...) after lenient uses of the same text: the outcome must be that of a first call"""
+    _lenient_first(dec(a[0]))
+    return f_iban_new(a)
+
+
+def f_iban_validate_after(a):
+    """validate(validate_bban) on an object that was already validated leniently (is_valid, validate())"""
+    def run():
+        o = IBAN(dec(a[0]), allow_invalid=True)
+        try:
+            o.is_valid
+            o.validate()
+        except Exception:  # noqa: BLE001
+            pass
+        return eb(o.validate(b(a[1])))
+    return guard(run)
+
+
 def f_iban_is_valid(a):
     return guard(lambda: eb(IBAN(dec(a[0]), allow_invalid=True).is_valid))
 
@@ -399,12 +428,45 @@ def f_generate(a):
     return guard(lambda: enc(str(IBAN.generate(dec(a[0]), dec(a[1]), dec(a[2]), dec(a[3])))))
 
 
+def f_generated_published(a):
+    """IBAN.generate, handing its BBAN to the published-rule specification (second phase on the model side)"""
+    try:
+        o = IBAN.generate(dec(a[0]), dec(a[1]), dec(a[2]), dec(a[3]))
+        return "GEN ## " + enc(o.bban)
+    except Exception:  # noqa: BLE001   (what generate raises is C08's business)
+        return "NONE ## "
+
+
 def f_spec_national_accept(a):
     try:
         IBAN(dec(a[0]), validate_bban=True)
         return "1"
     except Exception:  # noqa: BLE001
         return "0"
+
+
+def f_spec_national_accept_after(a):
+    """the strict verdict (constructor and validate(validate_bban=True) on an object validated leniently before) after
+    lenient uses of the same text: '1' / '0', or what differs between the two strict entry points"""
+    t = dec(a[0])
+    _lenient_first(t)
+    try:
+        IBAN(t, validate_bban=True)
+        r1 = "1"
+    except Exception:  # noqa: BLE001
+        r1 = "0"
+    o = IBAN(t, allow_invalid=True)
+    try:
+        o.is_valid
+        o.validate()
+    except Exception:  # noqa: BLE001
+        pass
+    try:
+        o.validate(validate_bban=True)
+        r2 = "1"
+    except Exception:  # noqa: BLE001
+        r2 = "0"
+    return r1 if r1 == r2 else f"constructor:{r1} validate:{r2}"
 
 
 def f_spec_published(a):
